@@ -37,4 +37,50 @@ Dangling(w, i) == IF i > Len(w) THEN FALSE
 \* lastTok = symbols of the last token of the original input; endsAtEnd = it ends where the input ends
 KF_C09_DanglingEscape(kind, lastTyp, lastTok, endsAtEnd) ==
   kind \in {"trail","all"} /\ lastTyp = "LITERAL" /\ endsAtEnd /\ Dangling(lastTok, 1)
+
+\* ---- C03 / C04: range rendering (pkg/driver/renderfn.go rang / rangParam) ------------------------------
+\* Each signature names the cause in the query (ref) AND the wrong shape observed in PostgreSQL's reading
+\* of the inline SQL (ast), so the same input failing in another way is not covered.
+IsStr(v) == v.ty = "str"
+IsNum(v) == v.ty \in {"int","float"}
+\* string bounds with an exclusive bracket are rendered as BETWEEN lo AND hi (inclusive); pinned by the repo's tests
+KF_C03_StrRangeExclusive(ref, ast) ==
+  ref.form = "range" /\ IsStr(ref.lo) /\ IsStr(ref.hi) /\ ~(ref.loinc /\ ref.hiinc)
+  /\ ast.k = "between" /\ ast.lo.k = "const" /\ ast.lo.codes = ref.lo.codes /\ ast.hi.k = "const" /\ ast.hi.codes = ref.hi.codes
+\* a string range with an open end is rendered as BETWEEN with the constant '*'; pinned by the repo's tests
+KF_C03_StrRangeOpen(ref, ast) ==
+  ref.form = "range" /\ ((IsStr(ref.lo) /\ ref.hi.ty = "star") \/ (ref.lo.ty = "star" /\ IsStr(ref.hi)))
+  /\ ast.k = "between" /\ ((ast.lo.k = "const" /\ ast.lo.codes = <<42>>) \/ (ast.hi.k = "const" /\ ast.hi.codes = <<42>>))
+\* decimal bounds are printed with %.2f: a bound with more than two decimals is rounded
+ConstsOf(ast) == IF ast.k = "cmp" THEN {ast.r} ELSE IF ast.k = "bool" THEN {ast.args[i].r : i \in DOMAIN ast.args} ELSE {}
+KF_C03_DecimalRounding(ref, ast) ==
+  ref.form = "range" /\ (\E b \in {ref.lo, ref.hi} : b.ty = "float" /\ b.dp > 2)
+  /\ ast.k \in {"cmp","bool"} /\ (ast.k = "bool" => ast.op = "AND" /\ \A i \in DOMAIN ast.args : ast.args[i].k = "cmp")
+  /\ \E b \in {ref.lo, ref.hi} : b.ty = "float" /\ b.dp > 2 /\ \E c \in ConstsOf(ast) : c.k = "const" /\ c.n # b.n /\ (c.n - b.n) \in -5000..5000
+\* [* TO *] is rendered as <= 0 (toInts yields 0 for both ends and the first special case fires)
+KF_C03_StarStar(ref, ast) ==
+  ref.form = "range" /\ ref.lo.ty = "star" /\ ref.hi.ty = "star"
+  /\ ast.k = "cmp" /\ ast.op \in {"<=","<"} /\ ast.r.k = "const" /\ ast.r.n = 0
+\* one Inclusive flag for both ends (expr.RangeBoundary): [a TO b} and {a TO b] are rendered with both ends exclusive
+KF_C03_MixedBrackets(ref, ast) ==
+  ref.form = "range" /\ ref.loinc # ref.hiinc /\ IsNum(ref.lo) /\ IsNum(ref.hi)
+  /\ ast.k = "bool" /\ ast.op = "AND" /\ Len(ast.args) = 2 /\ ast.args[1].k = "cmp" /\ ast.args[2].k = "cmp"
+  /\ ast.args[1].op = ">" /\ ast.args[2].op = "<"
+\* a mixed-bracket range with one open end: the closed end is rendered exclusive although its bracket is inclusive
+KF_C03_MixedBracketsOpen(ref, ast) ==
+  ref.form = "range" /\ ref.loinc # ref.hiinc /\ ((IsNum(ref.lo) /\ ref.hi.ty = "star" /\ ref.loinc) \/ (ref.lo.ty = "star" /\ IsNum(ref.hi) /\ ref.hiinc))
+  /\ ast.k = "cmp" /\ ast.op \in {">","<"}
+\* `_` in a wildcard pattern reaches SIMILAR TO unescaped, where it matches any one character
+KF_C03_UnderscorePattern(ref, ast) ==
+  ref.form = "like" /\ (\E i \in DOMAIN ref.pat.codes : ref.pat.codes[i] = 95)
+  /\ ast.k = "similar" /\ ast.pat.k = "const" /\ \E i \in DOMAIN ast.pat.codes : ast.pat.codes[i] = 95
+\* rang() splits the serialized bounds on "," - a string bound containing a comma makes the renderer fail
+KF_C03_CommaBound(ref, out) ==
+  ref.form = "range" /\ out = "err" /\ \E b \in {ref.lo, ref.hi} : b.ty = "str" /\ \E i \in DOMAIN b.codes : b.codes[i] = 44
+
+\* ---- C02-long-identifier --------------------------------------------------------------------------------
+\* PostgreSQL truncates identifiers to 63 bytes (NAMEDATALEN-1), the renderer quotes a field name of any
+\* length (base.go serialize Column): the column referenced is the 63-byte prefix of the field name.
+KF_C02_LongName(fields, cols) ==
+  \A col \in cols \ fields : \E f \in fields : Len(f) > 63 /\ col = SubSeq(f, 1, 63)
 ========================================================================
